@@ -43,6 +43,21 @@ def run(v, tier, seed, replay):
     suvec.report_rejections(v, rej2, "random/")
     v.add("traces_validated_against_impl", a + a2)
     v.add("events_validated", m + m2)
+    # solver objects: random histories (construct, re-initialise, evolve in all stepper modes, toggle, move-construct,
+    # move-assign, destroy) under ASan + LeakSanitizer; the protocol itself is validated by C10
+    import random as _r, solver
+    sexe = vlib.build_harness("solver_drive", "asan")
+    rng = _r.Random(seed + 5)
+    nsolver = 12 if tier == "quick" else 80
+    for hi in range(nsolver):
+        cmds = ["QUIET 1"] + solver.random_history(rng, 12)
+        cmds = [("STEPPER %s %s 0 60" % tuple(c.split()[1:3])) if (c.startswith("STEPPER") and c.split()[3] == "0") else c for c in cmds]
+        cmds = [("TOL %s 1e-2 1e-2" % c.split()[1]) if c.startswith("TOL") else c for c in cmds]
+        p = vlib.sh([sexe], stdin="\n".join(cmds) + "\n", timeout=600, env={"ASAN_OPTIONS": "detect_leaks=1:exitcode=77", "UBSAN_OPTIONS": "halt_on_error=1:exitcode=78:print_stacktrace=1"})
+        if p.returncode != 0 or "ERROR: AddressSanitizer" in p.stderr or "ERROR: LeakSanitizer" in p.stderr or "runtime error:" in p.stderr:
+            kind = "leak" if "LeakSanitizer" in p.stderr else ("undefined-behaviour" if "runtime error:" in p.stderr else "memory-error")
+            v.violation("solver/%s" % kind, "solver history under ASan rc=%s: %s" % (p.returncode, p.stderr[-1200:]), {"script": cmds})
+    v.cov["solver_histories_under_asan"] = nsolver
     thrown = sum(1 for s in allr for y in s if '"out":"rt"' in y)
     v.cov["calls_ending_in_library_exception"] = thrown
     if thrown < 10:
@@ -50,6 +65,6 @@ def run(v, tier, seed, replay):
     for s in allr[:1]:
         v.sample({"calls": [{k: x for k, x in json.loads(y).items() if k in ("e", "t", "a", "b", "op", "w", "d", "c", "arv", "brv", "out", "hev")} for y in s][:25]})
     v.cov["rule"] = "path cover of all histories <= %d calls (3 vectors) + %d random histories x %d calls (6 vectors, dims 2..6, bad arguments mixed in), ASan+UBSan build, ledger/cache events validated by TLC, quiescence = empty ledger" % (3 if tier == "quick" else 4, len(allr), ln)
-    v.assumptions.append("solver objects (SQuIDS) are exercised by the C10/C04 drivers; this check covers the vector pool")
+    v.assumptions.append("solver object histories run under ASan+LeakSanitizer (sanitizer-observed); their protocol is validated against Solver.tla by C10")
     v.assumptions.append("operations whose documented precondition is violated (operator[] out of range, false guarantee flags, undersized user buffers, arithmetic on empty operands) are outside the alphabet")
     return "model_checking"
